@@ -89,13 +89,34 @@ def load_known(path: Optional[str] = None) -> List[dict]:
 def run_property(prop: str, module, prog: Program, tier: str) -> "Result":
     t0 = time.time()
     ctx = Ctx(prog, prop, tier)
+    from . import astx as _astx
+    node_owner = {id(f.node): f.qualname for f in prog.functions.values()}
     for rule_id, fn, floor, _desc in module.RULES:
         ctx.cur_rule = rule_id
         ctx.floor(rule_id, floor)
+        del _astx.MISSES[:]
+        n_before = len(ctx.obs)
         try:
             fn(ctx)
         except AnalysisError as e:
             ctx._add(VANISHED if "anchor-missing" in str(e) else UNDECIDED, None, None, str(e), str(e), rule_id)
+        except (AttributeError, IndexError, KeyError, TypeError, ValueError) as e:
+            # a rule tripping over an unexpected shape is "cannot decide", never a verdict
+            import traceback
+            tb = traceback.extract_tb(e.__traceback__)[-1]
+            ctx._add(UNDECIDED, None, None, f"{rule_id}: unexpected shape", f"{type(e).__name__}: {e} at {tb.filename.split('/')[-1]}:{tb.lineno}", rule_id)
+        # a rule that asked for a local name which no longer occurs in the function cannot tell a
+        # renamed local from a broken one: its verdicts about that function become UNDECIDED
+        missed = {}
+        for nid, name in _astx.MISSES:
+            if nid in node_owner:
+                missed.setdefault(node_owner[nid], set()).add(name)
+        if missed:
+            for o in ctx.obs[n_before:]:
+                if o.status == VIOLATED and o.function in missed:
+                    o.status = UNDECIDED
+                    o.detail = (f"local anchor(s) {sorted(missed[o.function])} not found in {o.function.split('.')[-1]} (renamed or removed); "
+                                f"the rule cannot decide this site. Was: {o.detail}")[:600]
     # floors
     for rule_id, _fn, floor, _d in module.RULES:
         n = sum(1 for o in ctx.obs if o.rule == rule_id and o.status != VANISHED)
